@@ -3,25 +3,35 @@
 
   input := (K KV0 (ACTION…))                      the script; only KV0 matters here (`(stubborn MODE)` = the tasks
                                                   alive at that moment outlive every KILL: nothing to replay, the
-                                                  model's tasks only die when the trace shows a terminal update)
+                                                  model's tasks only die when the trace shows a terminal update;
+                                                  `(park I VIA) (env P)… (unpark)` = environment I is torn down with
+                                                  the answers to its KILL calls held back, environments are created
+                                                  meanwhile: shows in the trace as (destroy E) … (launch …) … (destroyed E OK))
   obs   := (EV…)  the master's trace of the REAL core, projected, plus the harness' markers:
     (kv F|-) (start L) (sub L F|- FO) (subd F) (recon N HTTP) (launch E T) (upd T STATE recon|-|other DELIVERED)
     (kill T HTTP) (drop) (killcore) (term) (exited) (destroy E) (destroyed E OK) (teardown)
-    (envs (E STATE)…) (own PHASE (T LOCKED STATUS)…) (quiet L (T LIFE STATE)…)
+    (envs (E STATE T…)…) (own PHASE (T LOCKED STATUS)…) (quiet L (T LIFE STATE)…)
+    envs = GetEnvironments(showAll, showTaskInfos): every environment with the tasks its roles hold (locked);
+    own = GetTasks: the roster.
   tasks tN, barrier tasks bN (reconciliation updates about tasks nobody knows), environments eN, framework ids fN.
 
   MONITOR (modelObs = ACCEPT | REJECT:<why>): the trace is replayed as a history of Model/Reconcile.lean with
   the configuration the code has NOW (`Spec.C18.codeCfg`, from the regenerated facts): what the master and
   the harness did become steps (coreStart, coreKill, coreTerm, subscribe, drop, launch, status, reconUpdate,
-  release), every event put on the stream is read and handled at once, and what the model's core then does
+  release — a teardown the harness asked for is split: `releaseBegin` at (destroy E), `releaseEnd` at (destroyed E OK)
+  or at the next synchronisation, so launches recorded in between are interleaved with it as they were in the
+  real core), every event put on the stream is read and handled at once, and what the model's core then does
   (SUBSCRIBE with/without id, RECONCILE, KILL per task) must be what the real core was seen doing between two
   quiet points, as multisets; the roster must be what GetTasks said before every disturbance and after every
-  restart; the master's reconciliation answers must be the ones the model's master gives.
+  restart, and what the model's environments hold (`St.held`) must be what GetEnvironments said they hold; the
+  master's reconciliation answers must be the ones the model's master gives.
 
   SPEC (specOnImpl): `Spec.C18.all` on a log rebuilt from the observation ALONE (no model state): SUBSCRIBEs
   and mesos_fid values as seen, every KILL classified by what preceded it in the trace (reconciliation update /
   ordinary update / a teardown the harness asked for or the core's own shutdown) and by what GetTasks said
-  the core owned at the last snapshot, quiet points with the master's live rows of earlier lives. RECONCILE
+  the core owned at the last snapshot — owned = locked in the roster (GetTasks) OR held by a listed environment
+  (GetEnvironments): a task the roster has lost is still owned —, quiet points with the master's live rows of
+  earlier lives. RECONCILE
   calls are in that log too, so `orphansKilledEachRound` asks for a KILL of every orphan listed at a quiet point
   that is newer than the latest RECONCILE of that life (scripts with `(stubborn …)`: the orphan outlives its KILL).
   hyp = reconnect_kills_owned when only `ownedSpared` fails, the code has no roster test, and the replayed
@@ -47,7 +57,7 @@ inductive TEv where
   | drop | killcore | term | exited | teardown
   | destroy (e : Nat)
   | destroyed (e : Nat) (ok : Bool)
-  | envs (rows : List Nat)
+  | envs (rows : List (Nat × List Nat))
   | own (phase : String) (rows : List (Nat × Bool))
   | quiet (l : Nat) (rows : List (Nat × Nat × MState))
 
@@ -84,7 +94,9 @@ def parseEv : SExp → Option TEv
   | .list [.atom "destroy", e] => do pure (.destroy (← envRef e))
   | .list [.atom "destroyed", e, ok] => do pure (.destroyed (← envRef e) (← ok.bool?))
   | .list (.atom "envs" :: rows) => do
-    pure (.envs (← rows.mapM? fun | .list [e, _] => envRef e | _ => none))
+    pure (.envs (← rows.mapM? fun
+      | .list (e :: _ :: ts) => do pure ((← envRef e), (← ts.mapM? taskRef))
+      | _ => none))
   | .list (.atom "own" :: .atom phase :: rows) => do
     pure (.own phase (← rows.mapM? fun | .list [t, l, _] => do pure ((← taskRef t), (← l.bool?)) | _ => none))
   | .list (.atom "quiet" :: l :: rows) => do
@@ -107,6 +119,7 @@ structure Mon where
   expAns : List Upd := []         -- reconciliation answers the model's master gave, not yet seen in the trace
   terminating : Bool := false
   refused : List Nat := []        -- environments whose DestroyEnvironment request the core refused
+  envHeld : List (Nat × Nat) := []  -- (task, environment): what GetEnvironments last said the environments hold
   err : Option String := none
 
 def Mon.fail (m : Mon) (why : String) : Mon := if m.err.isSome then m else { m with err := some why }
@@ -125,6 +138,9 @@ def Mon.drain (m : Mon) : Nat → Mon
     else m
 
 def Mon.settle (m : Mon) : Mon := m.drain (2 * (m.s.queue.length + m.s.inbox.length) + 2)
+
+/-- the KILL calls of every teardown still in flight in the model have returned by now -/
+def Mon.finishTeardowns (m : Mon) : Mon := m.s.tearing.foldl (fun m d => m.step (.releaseEnd d.env)) m
 
 def fidStr : Option Nat → String
   | none => "-"
@@ -169,7 +185,7 @@ def subMultiset : List String → List String → Bool
       torn down on request, or given up by the core itself: whether such a task is still ACTIVE, hence
       KILLed rather than forgotten, is a race inside the core that this property does not depend on). -/
 def Mon.sync (m : Mon) (strict : Bool) (wher : String) : Mon :=
-  let m := m.settle
+  let m := m.settle.finishTeardowns
   let p := sortS (predicted m)
   let o := sortS m.seen
   let ok := if strict then p == o else subMultiset o p
@@ -187,6 +203,8 @@ def Mon.sync (m : Mon) (strict : Bool) (wher : String) : Mon :=
 
 def rosterRows (s : St) : List String :=
   sortS (s.roster.map fun r => s!"{r.id}:{r.locked}")
+
+def heldRows (h : List (Nat × Nat)) : List String := sortS (h.map fun (t, e) => s!"{t}@{e}")
 
 def Mon.onEv (m : Mon) (kv0 : Option Nat) : TEv → Mon
   | .kv f =>
@@ -235,16 +253,18 @@ def Mon.onEv (m : Mon) (kv0 : Option Nat) : TEv → Mon
     let m := m.settle.step .coreTerm
     { m with mark := m.s.log.length, seen := [], kills := [], window := [], expAns := [], terminating := false }
   | .teardown => m.fail "TEARDOWN call"
-  | .destroy e => if m.terminating || m.refused.contains e then m else m.settle.step (.release e)
-  | .destroyed _ _ => m
+  | .destroy e => if m.terminating || m.refused.contains e then m else m.settle.step (.releaseBegin e)
+  | .destroyed e _ => if m.terminating then m else m.settle.step (.releaseEnd e)
   | .envs rows =>
+    let m := { m with envHeld := rows.flatMap fun (e, ts) => ts.map fun t => (t, e) }
     if m.terminating || !m.s.alive then m else
     -- environments the core has given up by itself (failed deployment): their tasks are released
-    let gone := (m.s.roster.map (·.env)).eraseDups.filter (fun e => !rows.contains e)
+    let listed := rows.map (·.1)
+    let gone := (m.s.roster.map (·.env)).eraseDups.filter (fun e => !listed.contains e)
     gone.foldl (fun m e => m.settle.step (.release e)) m
   | .own phase rows =>
     if phase == "post" || m.terminating then m else
-    let m := m.settle
+    let m := m.settle.finishTeardowns
     -- an environment none of whose tasks GetTasks still lists has been released by the core itself
     -- (failed deployment, its clean-up possibly still in progress: the environment may still be listed)
     let ids := rows.map (·.1)
@@ -252,7 +272,9 @@ def Mon.onEv (m : Mon) (kv0 : Option Nat) : TEv → Mon
       (m.s.roster.filter (·.env == e)).all fun r => !ids.contains r.id
     let m := gone.foldl (fun m e => m.step (.release e)) m
     let o := sortS (rows.map fun (t, l) => s!"{t}:{l}")
-    if o == rosterRows m.s then m else m.fail s!"GetTasks ({phase}) says {o}, the model's roster is {rosterRows m.s}"
+    let m := if o == rosterRows m.s then m else m.fail s!"GetTasks ({phase}) says {o}, the model's roster is {rosterRows m.s}"
+    if heldRows m.envHeld == heldRows m.s.held then m
+    else m.fail s!"GetEnvironments ({phase}) says the environments hold {heldRows m.envHeld}, the model's environments {heldRows m.s.held}"
   | .quiet l rows =>
     let m := m.sync true s!"quiet point of life {l}"
     let m := if m.s.hello.isSome then m.fail "quiet point with SUBSCRIBED unread (no RECONCILE seen)" else m
@@ -274,13 +296,15 @@ where
 structure Obs where
   /-- (position, environments listed) of every `(envs …)` marker of the trace: lets a KILL be attributed to a
       clean-up the core started by itself (the environment is gone at the next snapshot) -/
-  snaps : List (Nat × List Nat) := []
+  snaps : List (Nat × List (Nat × List Nat)) := []
   pos : Nat := 0
   dead : List Nat := []             -- tasks whose last reported state is terminal
   log : List Out := []              -- newest first
   life : Nat := 0
   lastKv : Option Nat := none
   own : List (Nat × Bool) := []
+  /-- tasks held (locked) by an environment GetEnvironments listed at the last snapshot of this life -/
+  held : List Nat := []
   destroying : List Nat := []
   terminating : Bool := false
   lastReason : List (Nat × Reason) := []
@@ -293,7 +317,7 @@ def Obs.onEv (o : Obs) (ev : TEv) : Obs :=
     match f with
     | some g => if o.lastKv == some g then o else { o with log := .persist o.life g :: o.log, lastKv := some g }
     | none => o
-  | .start l => { o with life := l, own := [], destroying := [], terminating := false, lastReason := [] }
+  | .start l => { o with life := l, own := [], held := [], destroying := [], terminating := false, lastReason := [] }
   | .sub l f _ => { o with log := .subscribe l f :: o.log }
   | .recon 0 _ => { o with log := .reconcile o.life :: o.log }
   | .launch e t => { o with envOf := (t, e) :: o.envOf }
@@ -304,20 +328,21 @@ def Obs.onEv (o : Obs) (ev : TEv) : Obs :=
   | .destroy e => { o with destroying := e :: o.destroying }
   | .envs rows =>
     -- an environment the core no longer lists is being (or has been) cleaned up by the core itself
-    let gone := ((o.envOf.map (·.2)).eraseDups.filter fun e => !rows.contains e)
-    { o with destroying := (gone ++ o.destroying).eraseDups }
+    let listed := rows.map (·.1)
+    let gone := ((o.envOf.map (·.2)).eraseDups.filter fun e => !listed.contains e)
+    { o with destroying := (gone ++ o.destroying).eraseDups, held := rows.flatMap (·.2) }
   | .term => { o with terminating := true }
   | .kill t _ =>
     let env := Assoc.get o.envOf t
     let goneNext := match env, o.snaps.find? (fun sn => sn.1 > o.pos) with
-      | some e, some sn => !sn.2.contains e
+      | some e, some sn => !(sn.2.map (·.1)).contains e
       | _, _ => false
     let released := o.dead.contains t || goneNext || (match env with | some e => o.destroying.contains e | none => false)
     let why : Why := if o.terminating then .term else
       match Assoc.get o.lastReason t with
       | some .recon => .update .recon
       | _ => if released then .release else .update .none
-    let owned := !o.terminating && !released && o.own.contains (t, true)
+    let owned := !o.terminating && !released && (o.own.contains (t, true) || o.held.contains t)
     { o with log := .kill o.life t why owned :: o.log }
   | .quiet l rows =>
     { o with log := .snap l ((rows.filter fun (_, life, st) => life < l && unguardedCfg.killable st).map (·.1)) :: o.log }
